@@ -327,10 +327,17 @@ impl RegretParams {
             strat.fill(0.0);
             strat[ind] = 1.0;
         } else {
+            // shift by the regret with the largest weighted value so that every exponent is
+            // non-positive; with a negative weight that is the smallest regret
+            let extremum: fn(f64, f64) -> f64 = if self.no_positive > 0.0 {
+                f64::max
+            } else {
+                f64::min
+            };
             let max = cum_reg
                 .into_floats_mut()
                 .map(|&mut v| v)
-                .reduce(f64::max)
+                .reduce(extremum)
                 .unwrap();
             let norm: f64 = cum_reg
                 .into_floats_mut()
